@@ -35,6 +35,8 @@ func main() {
 			runC15(os.Args[3:])
 		case "C16":
 			runC16(os.Args[3:])
+		case "C11":
+			runC11(os.Args[3:])
 		case "C09":
 			runC09(os.Args[3:])
 		case "C10":
